@@ -3,9 +3,15 @@
     [encode_top pk fuel h v] models Encoder.Encode on the value [v] whose mutable objects live in the heap
     [h] (Pickle/Model.v); [decode unp bs] models Decoder.Decode: the decoded value and the decoder's heap.
     [fuel] bounds the encoder's recursion depth only; the hypotheses [encode_top ... = Ok bs] say "the encoder
-    returned these bytes" ([tree_encodable] and the examples below show they are satisfiable).
-    Sharing of immutable tuples is not observable in Starlark and is not part of the isomorphism. *)
-From Dawn Require Import Pickle.Model Pickle.Spec Pickle.Proofs_Tree Pickle.Proofs_Heap.
+    returned these bytes": [encode_terminates] and [heap_encodable] show that with fuel [enc_fuel pk h v] the
+    encoder never runs out of fuel and returns bytes for every encodable graph, shared and cyclic ones included.
+    Sharing of immutable tuples is not observable in Starlark and is not part of the isomorphism.
+
+    The one excluded shape is an object taken by the host pickler that is reachable from its own constructor
+    arguments ([host_acyclic]): the pickler's NEWOBJ protocol memoizes such an object only after its arguments, and
+    the code then either overflows the stack ([host_selfref_diverges]) or emits an encoding that decodes to a graph
+    with the object duplicated ([host_cycle_roundtrip_refuted]). *)
+From Dawn Require Import Pickle.Model Pickle.Spec Pickle.Proofs_Tree Pickle.Proofs_Term Pickle.Proofs_Heap Pickle.Proofs_HostCycle.
 Open Scope N_scope.
 
 (** Integers of EVERY magnitude (BININT1, BININT2, BININT and the decimal INT form). *)
@@ -46,30 +52,80 @@ Theorem tree_distinct : forall pk unp f1 f2 h1 h2 v1 v2 bs1 bs2,
 Proof. exact tree_distinct_proof. Qed.
 Print Assumptions tree_distinct.
 
-(** Lists, dicts and sets of ANY size (any number of 1000-element batches), nested anywhere, shared and
-    self-referential: the decoded graph is isomorphic to the source graph -- a one-to-one correspondence
-    [rho] between the reachable source objects and the decoded objects under which the roots agree and
-    every pair of corresponding objects has the same kind and pairwise corresponding contents in the same
-    order.  [wf_heap]: Go-representable sizes, dict keys / set elements hashable and pairwise distinct
-    (Starlark's own invariant), fewer than 2^32 objects.  [no_host]: the host pickler declines the
-    objects of this heap (host objects: see [obj_roundtrip] and the note in the check's META). *)
+(** The encoder terminates: with the fuel [enc_fuel pk h v] = 1 + depth v + |h| * (2 + deepest value stored in
+    the heap), [encode_top] never runs out of fuel -- for EVERY heap (dangling references, decoder-internal
+    values, failing picklers included: those end in an error) with shared and cyclic lists, dicts and sets,
+    provided no object taken by the host pickler is reachable from its own constructor arguments.  [reach_val],
+    [host_acyclic]: Pickle/Spec.v.  Without a pickler, or with one that declines every object of the heap, the
+    proviso holds trivially ([no_host_acyclic]). *)
+Theorem encode_terminates : forall pk h v,
+    host_acyclic pk h -> encode_top pk (enc_fuel pk h v) h v <> OutOfFuel.
+Proof. exact encode_terminates_proof. Qed.
+Print Assumptions encode_terminates.
+
+(** ... in particular for ALL heaps when there is no host pickler, or when it declines every object. *)
+Theorem encode_terminates_no_host : forall pk h v,
+    no_host pk h -> encode_top pk (enc_fuel pk h v) h v <> OutOfFuel.
+Proof. exact (fun pk h v NH => encode_terminates_proof pk h v (no_host_acyclic pk h NH)). Qed.
+Print Assumptions encode_terminates_no_host.
+
+(** ... and it returns bytes when the graph is encodable: no dangling reference or decoder-internal value in
+    the root or in any object ([val_ok]), the pickler takes every host object and fails on none ([heap_ok]). *)
+Theorem heap_encodable : forall pk h v,
+    host_acyclic pk h -> heap_ok pk h -> val_ok h v ->
+    exists bs, encode_top pk (enc_fuel pk h v) h v = Ok bs.
+Proof. exact heap_encodable_proof. Qed.
+Print Assumptions heap_encodable.
+
+(** The proviso is necessary, in the model as in the code: a host object that is its own constructor argument
+    makes the encoder recurse forever (Go: fatal "stack overflow" in Encoder.encodeComplex) ... *)
+Theorem host_selfref_diverges : forall fuel,
+    encode_top (Some obj_pickler) fuel [NObj [118] [72] [VRef 0%nat]] (VRef 0%nat) = OutOfFuel.
+Proof. exact host_selfref_diverges_proof. Qed.
+Print Assumptions host_selfref_diverges.
+
+(** Lists, dicts, sets of ANY size (any number of 1000-element batches) AND objects taken by the host pickler,
+    nested anywhere, shared and self-referential, the constructor arguments of host objects being arbitrary
+    (mutable, shared, cyclic) values: the decoded graph is isomorphic to the source graph -- a one-to-one
+    correspondence [rho] between the reachable source objects and the decoded objects under which the roots
+    agree and every pair of corresponding objects has the same kind (for host objects: the same module and
+    name) and pairwise corresponding contents / constructor arguments in the same order.
+    [wf_heap]: Go-representable sizes, dict keys / set elements hashable and pairwise distinct (Starlark's own
+    invariant), fewer than 2^32 objects.  [host_pair]: the pickler declines lists and dicts and takes a host
+    object apart into its module, name and arguments, which the unpickler puts together again (the harness'
+    pair [obj_pickler] / [obj_unpickler]; a pickler that declines everything qualifies with any unpickler:
+    [no_host_pair]).  [host_acyclic]: see above. *)
 Theorem heap_roundtrip : forall pk unp fuel h v bs,
-    wf_heap h -> no_host pk h -> wf_val v ->
+    wf_heap h -> host_pair pk unp h -> host_acyclic pk h -> wf_val v ->
     encode_top pk fuel h v = Ok bs ->
     exists v' h', decode unp bs = Ok (v', h') /\ iso h v h' v'.
-Proof. exact heap_roundtrip_proof. Qed.
+Proof. exact host_roundtrip_proof. Qed.
 Print Assumptions heap_roundtrip.
+
+(** [host_acyclic] cannot be dropped from [heap_roundtrip]: a host object whose argument is a list that
+    contains the object satisfies every other hypothesis, is encoded without error (the list is memoized, so
+    the second visit of the object stops at it), and decodes to a graph with TWO copies of the object -- not
+    isomorphic to the source.  The code emits exactly these bytes and decodes them to exactly this graph. *)
+Theorem host_cycle_roundtrip_refuted :
+    wf_heap cyc_heap /\ host_pair (Some obj_pickler) (Some obj_unpickler) cyc_heap /\
+    ~ host_acyclic (Some obj_pickler) cyc_heap /\
+    encode_top (Some obj_pickler) 20 cyc_heap (VRef 0%nat) = Ok cyc_bytes /\
+    decode (Some obj_unpickler) cyc_bytes = Ok (VRef 2%nat, cyc_decoded) /\
+    ~ iso cyc_heap (VRef 0%nat) cyc_decoded (VRef 2%nat).
+Proof. exact host_cycle_roundtrip_refuted_proof. Qed.
+Print Assumptions host_cycle_roundtrip_refuted.
 
 (** Consequently two graphs with the same encoding are both isomorphic to the one graph that decodes from
     it: values that differ (are not isomorphic) never decode to equal values. *)
 Theorem same_encoding_iso : forall pk unp f1 f2 h1 v1 h2 v2 bs,
-    wf_heap h1 -> no_host pk h1 -> wf_val v1 -> wf_heap h2 -> no_host pk h2 -> wf_val v2 ->
+    wf_heap h1 -> host_pair pk unp h1 -> host_acyclic pk h1 -> wf_val v1 ->
+    wf_heap h2 -> host_pair pk unp h2 -> host_acyclic pk h2 -> wf_val v2 ->
     encode_top pk f1 h1 v1 = Ok bs -> encode_top pk f2 h2 v2 = Ok bs ->
     exists v' h', decode unp bs = Ok (v', h') /\ iso h1 v1 h' v' /\ iso h2 v2 h' v'.
 Proof. exact same_encoding_iso_proof. Qed.
 Print Assumptions same_encoding_iso.
 
-(** A value handled by the host pickler (object-preserving pair), constructor arguments immutable. *)
+(** A host object with immutable constructor arguments, in closed form: the decoded heap is exactly the object. *)
 Theorem obj_roundtrip : forall fuel h a m n args bs,
     nth_error h a = Some (NObj m n args) ->
     Forall heap_free args -> Forall wf_val args -> len m < 4294967296 -> len n < 4294967296 ->
@@ -78,17 +134,61 @@ Theorem obj_roundtrip : forall fuel h a m n args bs,
 Proof. exact obj_roundtrip_proof. Qed.
 Print Assumptions obj_roundtrip.
 
-(** The hypotheses are satisfiable: a list containing itself and a dict that is its own value, shared. *)
+(** The hypotheses are satisfiable: a list containing itself and a dict that is its own value, shared; the
+    pickler declines all of it, which gives [host_pair] and [host_acyclic] for free. *)
 Definition ex_heap : heap :=
   [NList [VInt 1; VRef 0%nat; VRef 1%nat]; NDict [(VStr [115], VRef 1%nat); (VTuple [VInt 2; VNone], VRef 0%nat)];
    NSet [VInt 7; VStr [120]]].
 
 Example ex_wf : wf_heap ex_heap /\ no_host (Some obj_pickler) ex_heap /\
+                host_pair (Some obj_pickler) (Some obj_unpickler) ex_heap /\ host_acyclic (Some obj_pickler) ex_heap /\
                 exists bs, encode_top (Some obj_pickler) 10 ex_heap (VTuple [VRef 0%nat; VRef 2%nat; VRef 0%nat]) = Ok bs.
 Proof.
-  split; [|split].
+  assert (NH : no_host (Some obj_pickler) ex_heap).
+  { intros p nd E HI. inversion E; subst. cbn in HI. destruct HI as [<-|[<-|[<-|[]]]]; reflexivity. }
+  split; [|split; [exact NH|split; [apply no_host_pair; exact NH|split; [apply no_host_acyclic; exact NH|]]]].
+  - split; [|vm_compute; discriminate]. repeat constructor.
+  - vm_compute. eexists; reflexivity.
+Qed.
+
+(** ... and with host objects whose arguments are mutable, shared and cyclic: object 0 is built from the list 1
+    (which contains itself and the dict 3, whose value is the list again), from the object 2 and an integer;
+    object 2 from the same list and a tuple holding the dict.  Neither object is reachable from its own arguments. *)
+Definition ex_host_heap : heap :=
+  [NObj [118] [72] [VRef 1%nat; VRef 2%nat; VInt 5];
+   NList [VInt 1; VRef 1%nat; VRef 3%nat];
+   NObj [118] [75] [VRef 1%nat; VTuple [VRef 3%nat]];
+   NDict [(VStr [115], VRef 1%nat)]].
+Definition ex_host_root : val := VTuple [VRef 0%nat; VRef 2%nat; VRef 1%nat].
+
+Example ex_host_wf :
+    wf_heap ex_host_heap /\ host_pair (Some obj_pickler) (Some obj_unpickler) ex_host_heap /\
+    host_acyclic (Some obj_pickler) ex_host_heap /\ heap_ok (Some obj_pickler) ex_host_heap /\
+    val_ok ex_host_heap ex_host_root /\ wf_val ex_host_root /\
+    exists bs, encode_top (Some obj_pickler) (enc_fuel (Some obj_pickler) ex_host_heap ex_host_root)
+                 ex_host_heap ex_host_root = Ok bs.
+Proof.
+  assert (AC : host_acyclic (Some obj_pickler) ex_host_heap).
+  { intros a nd m n args x HA TK HI R.
+    assert (C13 : forall b nd0, ((b =? 1) || (b =? 3))%nat = true -> nth_error ex_host_heap b = Some nd0 ->
+                    forallb (fun y => forallb (fun c => ((c =? 1) || (c =? 3))%nat) (refs y)) (succs (Some obj_pickler) nd0) = true).
+    { intros b nd0 Sb HB. destruct b as [|[|[|[|b]]]]; cbn in Sb; try discriminate; cbn in HB; inversion HB; subst; reflexivity. }
+    assert (C123 : forall b nd0, ((b =? 1) || (b =? 2) || (b =? 3))%nat = true -> nth_error ex_host_heap b = Some nd0 ->
+                    forallb (fun y => forallb (fun c => ((c =? 1) || (c =? 2) || (c =? 3))%nat) (refs y)) (succs (Some obj_pickler) nd0) = true).
+    { intros b nd0 Sb HB. destruct b as [|[|[|[|b]]]]; cbn in Sb; try discriminate; cbn in HB; inversion HB; subst; reflexivity. }
+    destruct a as [|[|[|[|a]]]]; cbn in HA; inversion HA; subst; cbn in TK; try discriminate; inversion TK; subst.
+    - pose proof (reach_closed _ _ _ C123 x 0%nat R) as RC.
+      destruct HI as [<-|[<-|[<-|[]]]]; specialize (RC eq_refl); discriminate.
+    - pose proof (reach_closed _ _ _ C13 x 2%nat R) as RC.
+      destruct HI as [<-|[<-|[]]]; specialize (RC eq_refl); discriminate.
+    - destruct a; discriminate. }
+  split; [|split; [|split; [exact AC|split; [|split; [|split]]]]].
   - split; [|vm_compute; discriminate]. repeat constructor.
   - intros p nd E HI. inversion E; subst. cbn in HI.
-    destruct HI as [<-|[<-|[<-|[]]]]; reflexivity.
+    destruct HI as [<-|[<-|[<-|[<-|[]]]]]; cbn; try reflexivity; right; repeat split; reflexivity.
+  - intros nd HI. cbn in HI. destruct HI as [<-|[<-|[<-|[<-|[]]]]]; (split; [cbn; try discriminate; exact I|]);
+      cbn; repeat constructor.
+  - repeat constructor.
+  - repeat constructor.
   - vm_compute. eexists; reflexivity.
 Qed.
